@@ -380,19 +380,29 @@ def tok_equal(fn, impl, want):
     return False
 
 
-def classify(fn, call, impl, model):
-    """-> ('ok'|'finding'|'bad', tag)"""
+def parse_blocks(btok):
+    if btok == "none":
+        return []
+    return [(int(x.split(":")[0]), 0 if x.split(":")[1] == "-" else len(x.split(":")[1]) // 2) for x in btok.split(",")]
+
+
+def classify(fn, btok, call, impl, model):
+    """-> ('ok'|'finding'|'bad', tag).  A finding is reported only for the exact signature of a listed defect class AND
+    when the implementation returns exactly what the code-following model (second alternative) predicts."""
     alts = model.split("~")
     if tok_equal(fn, impl, alts[0]):
         return "ok", None
     if len(alts) == 2 and tok_equal(fn, impl, alts[1]):
-        if fn in SIGNED_FNS:
-            return "finding", "signed-char"
-        if fn in MULTIBLOCK_FNS and alts[1] != "U" or fn == "mc":
-            return "finding", "multiblock-stat"
         p = call.split(":")
+        if fn in SIGNED_FNS and any(b >= 0x80 for b in (bytes.fromhex(p[1]) if p[1] != "-" else b"")):
+            return "finding", "signed-char"
+        bl = parse_blocks(btok)
+        if fn in MULTIBLOCK_FNS and len(bl) > 1 and branch_class(btok, call) == "crosses-blocks":
+            return "finding", "multiblock-stat"
         if fn in RANGE_FNS and alts[1] == "U" and p[-1] == "0":
-            return "finding", "zero-length-at-block-boundary"
+            off = int(p[-2])
+            if any(bl[i][0] == off == bl[i - 1][0] + bl[i - 1][1] for i in range(1, len(bl))):
+                return "finding", "zero-length-at-block-boundary"
         return "bad", "code-and-code-model-agree-but-differ-from-spec"
     return "bad", "implementation-differs-from-spec-and-model"
 
@@ -457,6 +467,9 @@ def branch_class(blocks_tok_s, call):
 
 def run(tier, replay=None):
     chk = core.Check("C14", tier)
+    for f in os.listdir(os.path.join(core.OUT, "C14")):
+        if f.startswith(("diff_", "harness_crash", "proof_broken")):
+            os.remove(os.path.join(core.OUT, "C14", f))
     tr = core.run_translators(["crc32tab"])
     lres = core.lean_check(THM)
     core.proof_coverage(chk, lres, THM, translators=tr)
@@ -506,6 +519,18 @@ def run(tier, replay=None):
                                                         "implementation": iline, "model_spec": mline})
             return
         fam = meta.get(cid, "ub" if ub else "replay")
+        sizes = [] if btok == "none" else [0 if x.split(":")[1] == "-" else len(x.split(":")[1]) // 2 for x in btok.split(",")]
+        if len(sizes) > 1 and 0 in sizes:
+            # a zero-size block next to other blocks is not a buffer region: outside the specification.
+            # The calls were executed (sanitizers, consistency of the observation) but values are not compared.
+            hist_family["zero-size-block-layout(run, values not compared)"] = hist_family.get("zero-size-block-layout(run, values not compared)", 0) + len(calls)
+            for k in range(len(calls)):
+                if it[k].startswith("X"):
+                    nviol += 1
+                    found = True
+                    chk.violation("diff_%d.json" % nviol, {"kind": "inconsistent-observation", "engine": "mod", "harness": "h_mod", "case": case,
+                                                            "implementation": iline, "model_spec": mline})
+            return
         hist_family[fam] = hist_family.get(fam, 0) + len(calls)
         for k, call in enumerate(calls):
             fn = call.split(":")[0]
@@ -516,7 +541,7 @@ def run(tier, replay=None):
             hist_res["undefined" if it[k] == "U" else "defined"] = hist_res.get("undefined" if it[k] == "U" else "defined", 0) + 1
             if it[k] != "U" and bc not in ("inr", "tonum"):
                 nontrivial.add((btok if fn in RANGE_FNS or fn.endswith("g") else "", call))
-            verdict, tag = classify(fn, call, it[k], mt[k])
+            verdict, tag = classify(fn, btok, call, it[k], mt[k])
             ref = py_reference(btok, call)
             if ref is not None:
                 model_ref_checked += 1
